@@ -68,6 +68,7 @@ impl<L: Language> Fixer<L> {
   fn do_parse(
     serialized: &SerializableFixConfig,
     env: &DeserializeEnv<L>,
+    transform: &Option<HashMap<String, Transformation>>,
   ) -> Result<Self, FixerError> {
     let SerializableFixConfig {
       template,
@@ -76,10 +77,12 @@ impl<L: Language> Fixer<L> {
     } = serialized;
     let expand_start = Expansion::parse(expand_start, env)?;
     let expand_end = Expansion::parse(expand_end, env)?;
+    // the template of an object-style fix sees the transformed variables like a string fix does
+    let fixer = Self::with_transform(template, env, transform)?;
     Ok(Self {
-      template: TemplateFix::try_new(template, &env.lang)?,
       expand_start,
       expand_end,
+      ..fixer
     })
   }
 
@@ -90,7 +93,7 @@ impl<L: Language> Fixer<L> {
   ) -> Result<Self, FixerError> {
     match fixer {
       SerializableFixer::Str(fix) => Self::with_transform(fix, env, transform),
-      SerializableFixer::Config(cfg) => Self::do_parse(cfg, env),
+      SerializableFixer::Config(cfg) => Self::do_parse(cfg, env, transform),
     }
   }
 
